@@ -112,8 +112,69 @@ func (a *accSim) apply(idxs []int, nadd int) {
 			}
 		}
 	}
+	a.emitUpdate(a.tip(), &cur, isUpd)
 	a.states = append(a.states, cur)
 	a.blocks = append(a.blocks, blk)
+}
+
+// updateLeaves + updateProof inside each tree of the pre-block accumulator that holds an updated leaf: the model
+// recomputes the tree's new root, the updated leaves' new proofs and the patched proofs of other leaves of that tree
+// from the pre-block proofs (Merkle/UpdateProofs.v: recompute_spec, update_proof_correct)
+func (a *accSim) emitUpdate(pre, post *simState, isUpd map[int]bool) {
+	r := a.r
+	n := pre.acc.NumLeaves
+	for h := 0; h < 64; h++ {
+		if n&(1<<uint(h)) == 0 {
+			continue
+		}
+		start := int(n &^ (1<<uint(h+1) - 1))
+		end := start + 1<<uint(h)
+		var us, ts []int
+		for i := start; i < end; i++ {
+			if isUpd[i] {
+				us = append(us, i)
+			}
+		}
+		if len(us) == 0 || h > 12 {
+			continue
+		}
+		for k := 0; k < 6 && end-start > len(us); k++ {
+			i := start + r.rng.IntN(end-start)
+			if !isUpd[i] {
+				ts = append(ts, i)
+			}
+		}
+		proofToks := func(p []types.Hash256) []string {
+			out := []string{hx(uint64(len(p)))}
+			for _, x := range p {
+				out = append(out, hb(x[:]))
+			}
+			return out
+		}
+		args := []string{hx(uint64(h)), hx(uint64(len(us)))}
+		for _, i := range us {
+			l := &post.leaves[i]
+			lh := consensus.VerifLeafHash(consensus.VerifLeaf{Elem: &l.se, ElementHash: l.ehash, Spent: l.spent})
+			args = append(args, hx(uint64(i)), hb(lh[:]))
+			args = append(args, proofToks(pre.leaves[i].se.MerkleProof[:h])...)
+		}
+		args = append(args, hx(uint64(len(ts))))
+		for _, i := range ts {
+			args = append(args, hx(uint64(i)))
+			args = append(args, proofToks(pre.leaves[i].se.MerkleProof[:h])...)
+		}
+		l0 := &post.leaves[us[0]]
+		lh0 := consensus.VerifLeafHash(consensus.VerifLeaf{Elem: &l0.se, ElementHash: l0.ehash, Spent: l0.spent})
+		root := consensus.VerifProofRoot(lh0, uint64(us[0]), l0.se.MerkleProof[:h])
+		want := []string{hb(root[:])}
+		for _, i := range us {
+			want = append(want, proofToks(post.leaves[i].se.MerkleProof[:h])...)
+		}
+		for _, i := range ts {
+			want = append(want, proofToks(post.leaves[i].se.MerkleProof[:h])...)
+		}
+		r.emit(true, "update-in-tree", "c05.update", args, want)
+	}
 }
 
 // revert the tip block the way RevertBlock does: the reverted leaves carry their pre-block
